@@ -562,10 +562,29 @@ def r3g(ctx: Ctx) -> list[Ob]:
         if not ranges:
             out.append(unres("R3g", f.qualname, "shortcut", "index-free shortcuts without a `== list(range(n))` comparison (another formulation): no verdict", f.loc))
         for i, (bound, other) in enumerate(ranges):
-            names = {x.id for e in ld.expand(bound) for x in ast.walk(e) if isinstance(x, ast.Name)}
-            direct = {x.id for x in ast.walk(bound) if isinstance(x, ast.Name)}
             request = {x.id for x in ast.walk(other) if isinstance(x, ast.Name) and isinstance(x.ctx, ast.Load)}
             request -= {t.id for c in ast.walk(other) if isinstance(c, ast.comprehension) for t in ast.walk(c.target) if isinstance(t, ast.Name)}
+            # names the bound derives from, following local definitions but not *through* the compared
+            # index: `n = len(idx); range(n)` derives from the request, whatever the index derives from
+            names: set[str] = set()
+            direct: set[str] = set()
+            seen_n: set[str] = set()
+            comp_targets = {t.id for c in ast.walk(f.node) if isinstance(c, ast.comprehension) for t in ast.walk(c.target) if isinstance(t, ast.Name)}
+            work_n = [x.id for x in ast.walk(bound) if isinstance(x, ast.Name)]
+            while work_n:
+                nm = work_n.pop()
+                if nm in seen_n:
+                    continue
+                seen_n.add(nm)
+                names.add(nm)
+                if nm in request:
+                    direct.add(nm)
+                    continue
+                if nm in comp_targets:
+                    continue  # comprehension-local: its sources are walked with the comprehension itself
+                for d in ld.defs.get(nm, []):
+                    if isinstance(d, ast.AST):
+                        work_n += [x.id for x in ast.walk(d) if isinstance(x, ast.Name)]
             inst = f"full-range#{i}:{unparse(bound)[:40]}"
             if direct & request:
                 out.append(viol("R3g", f.qualname, inst, f"the index-free shortcut compares the cumulative index with a range computed from the index itself (`{unparse(bound)[:60]}`): any prefix of a larger module compares equal", f.loc))
